@@ -56,6 +56,14 @@ def sched_jobs(tier, seed, gen=None, selections=False, faults=False, fault_rate=
     return jobs
 
 
+def w3_jobs(seed):
+    """the repository's own 352 tests under the passive spec-free monitors (workload W3)"""
+    return [dict(kind="w3", seed=seed, hashseed=seed % 4096)]
+
+
+RULE_W3 = ("; plus workload W3: the repository's own test-suite (352 tests, ~550 executions) run under the passive spec-free monitors "
+           "(dependency order, at-most-once, pool bound, thread identity, sequential exclusivity, no dispatch after an observed failure)")
+
 RULE_SCHED = (
     "generated DAG shapes (2..N call sites, random dependencies through positional/keyword/flag arguments, reused "
     "functions, priorities with ties and negatives, sequential flags, all three resources, max_concurrency 1..M, sync and "
@@ -68,10 +76,10 @@ RULE_SCHED = (
 @plan("C02")
 def c02(tier, seed):
     return dict(
-        jobs=sched_jobs(tier, seed, gen=dict(nmax=9, mc_max=4), selections=True)
+        jobs=w3_jobs(seed) + sched_jobs(tier, seed, gen=dict(nmax=9, mc_max=4), selections=True)
         + diff_jobs("C02", tier, seed, dict(flags=0.2, nest=0.3, nest_flag=0.0, share_fns=0.3), 2, nj_scale=0.5,
                     only=["call_site_received_wrong_values"]),
-        level="exploration", rule=RULE_SCHED + "; plus generated programs with nested DAGs (depth 2), operators, indexing and keyword "
+        level="exploration", rule=RULE_SCHED + RULE_W3 + "; plus generated programs with nested DAGs (depth 2), operators, indexing and keyword "
         "arguments where every executed call site must receive exactly the reference's argument terms", assumptions=ASSUME_COMMON,
         required_reach=["c02_dep_edges", "c02_value_checks", "c10_dependent_arg_checks", "XENTER", "FENTER"], parallel=8 if tier == "quick" else 16,
     )
@@ -80,14 +88,14 @@ def c02(tier, seed):
 @plan("C03")
 def c03(tier, seed):
     return dict(
-        jobs=sched_jobs(tier, seed, gen=dict(nmax=9, mc_max=4), selections=True)
+        jobs=w3_jobs(seed) + sched_jobs(tier, seed, gen=dict(nmax=9, mc_max=4), selections=True)
         + diff_jobs("C03", tier, seed, dict(flags=0.3, nest=0.3, nest_flag=0.3, share_fns=0.5), 2, nj_scale=0.5,
                     only=["executed_functions_differ_from_plain_python", "flagged_call_ran_although_flag_falsy",
                           "flagged_call_skipped_although_flag_truthy"] + ["call_site_entered_%d_times_expected_%d" % (a, b) for a in range(6) for b in range(2)])
         + [dict(kind="hist11", pid="C03", n_histories=(40 if tier == "quick" else 400),
                 only=["executed_set_differs_from_model", "ran_setup_node_the_selection_does_not_need", "setup_node_ran_more_than_once_on_one_instance"],
                 **_seeds(seed + 90, k)) for k in range(2 if tier == "quick" else 8)],
-        level="exploration", rule=RULE_SCHED + "; plus generated programs with nested DAGs (depth 2), shared functions and flags where "
+        level="exploration", rule=RULE_SCHED + RULE_W3 + "; plus generated programs with nested DAGs (depth 2), shared functions and flags where "
         "every call site (prefixed ids predicted by the monitor) must be entered exactly as often as in the reference run; plus histories of "
         "call / executor(sel) / setup() / setup(sel, incl. the empty list) / deepcopy on one instance where the executed set of every "
         "operation must be the selection minus the already-set-up nodes",
@@ -99,8 +107,9 @@ def c03(tier, seed):
 @plan("C04")
 def c04(tier, seed):
     return dict(
-        jobs=sched_jobs(tier, seed, gen=dict(nmin=4, nmax=14, mc_max=8, max_deps=1, seq_rate=0.05), dfs_gen=dict(nmin=3)),
-        level="exploration", rule=RULE_SCHED + "; wide fan-outs (ready >> max_concurrency), max_concurrency 1..8",
+        jobs=w3_jobs(seed) + sched_jobs(tier, seed, gen=dict(nmin=4, nmax=14, mc_max=8, max_deps=1, seq_rate=0.05), dfs_gen=dict(nmin=3))
+        + diff_jobs("C04", tier, seed, dict(flags=0.2, nest=0.3, nest_flag=0.2, share_fns=0.3, seq=0.2), 2, nj_scale=0.25, only=[]),
+        level="exploration", rule=RULE_SCHED + RULE_W3 + "; wide fan-outs (ready >> max_concurrency), max_concurrency 1..8",
         assumptions=ASSUME_COMMON, required_reach=["c04_pooled_decisions", "c04_thread_checks", "SUBMIT"],
         parallel=8 if tier == "quick" else 16,
     )
@@ -109,8 +118,9 @@ def c04(tier, seed):
 @plan("C05")
 def c05(tier, seed):
     return dict(
-        jobs=sched_jobs(tier, seed, gen=dict(nmax=8, mc_max=4, seq_rate=0.4)),
-        level="exploration", rule=RULE_SCHED + "; 40% of the functions are is_sequential (every resource)",
+        jobs=w3_jobs(seed) + sched_jobs(tier, seed, gen=dict(nmax=8, mc_max=4, seq_rate=0.4))
+        + diff_jobs("C05", tier, seed, dict(flags=0.2, nest=0.3, nest_flag=0.2, share_fns=0.3, seq=0.4), 2, nj_scale=0.25, only=[]),
+        level="exploration", rule=RULE_SCHED + RULE_W3 + "; 40% of the functions are is_sequential (every resource)",
         assumptions=ASSUME_COMMON, required_reach=["c05_pairs", "FENTER"], parallel=8 if tier == "quick" else 16,
     )
 
@@ -158,10 +168,10 @@ def c09(tier, seed):
 
 @plan("C14")
 def c14(tier, seed):
-    jobs = sched_jobs(tier, seed, gen=dict(nmax=8, mc_max=4), faults=True, dfs=True, dfs_faults=True, scale=0.7)
+    jobs = w3_jobs(seed) + sched_jobs(tier, seed, gen=dict(nmax=8, mc_max=4), faults=True, dfs=True, dfs_faults=True, scale=0.7)
     return dict(
         jobs=jobs, level="fault_enumeration",
-        rule=RULE_SCHED + "; fault plans = 1 or 2 call sites raising a marked exception (any resource); on the small shapes every "
+        rule=RULE_SCHED + RULE_W3 + "; fault plans = 1 or 2 call sites raising a marked exception (any resource); on the small shapes every "
         "single-fault position x every completion order is enumerated",
         assumptions=ASSUME_COMMON, required_reach=["c14_raised", "c14_descendant_checks", "c14_failure_deliveries"],
         parallel=8 if tier == "quick" else 16,
